@@ -40,6 +40,15 @@ type Ctx struct {
 	Only     string // optional sub-generator filter
 }
 
+// seedState hashes the seed into the generator state: the generator is counter based, so without
+// this seeds s and s+1 would walk the same sequence shifted by one draw.
+func seedState(seed uint64) uint64 {
+	z := (seed + 0x243f6a8885a308d3) * 0xd1342543de82ef95
+	z = (z ^ (z >> 30)) * 0xbf58476d1ce4e5b9
+	z = (z ^ (z >> 27)) * 0x94d049bb133111eb
+	return z ^ (z >> 31)
+}
+
 // splitmix64
 func (c *Ctx) U64() uint64 {
 	c.rng += 0x9e3779b97f4a7c15
@@ -79,7 +88,8 @@ func (c *Ctx) Sample(s string) {
 	}
 }
 func (c *Ctx) Fail(kind, desc string, replay any) {
-	if len(c.Fails) < 200 {
+	// keep at most 20 records per kind so that a frequent (known) class cannot crowd out a new one
+	if c.Hist["FAIL:"+kind] < 20 && len(c.Fails) < 4000 {
 		c.Fails = append(c.Fails, Fail{kind, desc, replay})
 	}
 	c.Hist["FAIL:"+kind]++
@@ -133,7 +143,7 @@ func Main(prop string, f func(*Ctx)) {
 	seed, _ := strconv.ParseUint(os.Args[2], 10, 64)
 	n, _ := strconv.Atoi(os.Args[3])
 	out := os.Args[4]
-	c := &Ctx{Prop: prop, Tier: os.Args[1], Seed: seed, N: n, rng: seed*0x9e3779b97f4a7c15 + 12345,
+	c := &Ctx{Prop: prop, Tier: os.Args[1], Seed: seed, N: n, rng: seedState(seed),
 		Hist: map[string]int{}, distinct: map[string]struct{}{}}
 	if len(os.Args) > 5 {
 		c.Only = os.Args[5]
